@@ -183,6 +183,19 @@ Proof.
 Qed.
 Print Assumptions null_guard.
 
+(* ---- recognisers ---- *)
+(* What the is_first recogniser accepts as capture / throw-if statements ARE the schema's statements. *)
+Theorem rec_capture_sound : forall (isf : string) (s : stmt),
+  is_capture isf s = true ->
+  exists ds rest, s = fi_capture isf ds rest /\ decls_occ isf ds = 0 /\ stmts_occ isf rest = 0.
+Proof. exact is_capture_sound. Qed.
+Print Assumptions rec_capture_sound.
+
+Theorem rec_throw_if_sound : forall (isf : string) (s : stmt),
+  is_throw_if isf s = true -> exists line, s = fi_throw isf line.
+Proof. exact is_throw_if_sound. Qed.
+Print Assumptions rec_throw_if_sound.
+
 (* ================================================================================================ *)
 (* non-vacuity                                                                                       *)
 (* ================================================================================================ *)
